@@ -74,7 +74,7 @@ def actions(sysm):
       A(('AddTrialMeasurement', 's', i, 0.5))
     else:
       sysm.pruned += 1
-    for mode in ('final', 'none', 'infeasible', 'infeasible-noreason', 'infeasible+final'):
+    for mode in cfg.get('modes', ('final', 'none', 'infeasible', 'infeasible-noreason', 'infeasible+final')):
       A(('CompleteTrial', 's', i, mode))
     A(('StopTrial', 's', i))
     A(('DeleteTrial', 's', i))
@@ -88,6 +88,15 @@ def actions(sysm):
   if cfg.get('switch'):
     A(('Switch',))      # the next calls go to the other of two live server objects on the same stored data
   return acts
+
+
+# two live servers A and B on one SQLite file: B has served (and may remember) the study, then A writes, then B serves again
+_S1 = [('CreateStudy', 's'), ('SuggestTrials', 's', 'a', 1), ('Switch',), ('ListTrials', 's'), ('GetStudy', 's'), ('GetTrial', 's', 1), ('Switch',)]
+TWO_SERVER_STARTS = [_S1,
+                     _S1 + [('CompleteTrial', 's', 1, 'final'), ('Switch',)],
+                     _S1 + [('UpdateMetadata', 's', ((None, '', 'k', 'v'), (1, '', 'k', 'v'))), ('AddTrialMeasurement', 's', 1, 0.5), ('Switch',)],
+                     _S1 + [('SetStudyState', 's', 'INACTIVE'), ('Switch',)],
+                     _S1 + [('DeleteTrial', 's', 1), ('CreateTrial', 's', 'requested', 0.25), ('Switch',)]]
 
 
 def system(cfg):
@@ -107,14 +116,14 @@ def expand(task):
 
 def run(ctx):
   if ctx.quick:
-    plans = [({'backends': ['ram'], 'max_trials': 2, 'max_meas': 1, 'max_ops': 2, 'max_id': 3}, 5),
+    plans = [({'backends': ['ram'], 'max_trials': 2, 'max_meas': 1, 'max_ops': 2, 'max_id': 3, 'modes': ('final', 'none', 'infeasible', 'infeasible+final')}, 5),
              ({'backends': ['sqlmem'], 'max_trials': 2, 'max_meas': 1, 'max_ops': 2, 'max_id': 3}, 3),
              # several studies at once (same id under two owners, ids differing by a LIKE wildcard): reduced alphabet, against the model
              ({'backends': ['sqlmem'], 'multi': True, 'studies': ('s_1', 'sx1', 'p@s_1'), 'max_trials': 1, 'max_id': 2, 'clients': ('a',)}, 5),
              ({'backends': ['ram'], 'multi': True, 'studies': ('s_1', 'sx1', 'p@s_1'), 'max_trials': 1, 'max_id': 2, 'clients': ('a',)}, 5),
              # two live servers on one SQLite file, each of which has already served the study; replay-only on fresh objects
              ({'backends': ['sqlfile'], 'switch': True, 'fresh_backends': True, 'max_trials': 1, 'max_meas': 1, 'max_ops': 2, 'max_id': 2,
-               'starts': [[('CreateStudy', 's'), ('SuggestTrials', 's', 'a', 1), ('Switch',), ('ListTrials', 's'), ('GetStudy', 's'), ('Switch',)]]}, 2)]
+               'starts': TWO_SERVER_STARTS}, 0)]
   else:
     plans = [({'backends': ['ram'], 'max_trials': 3, 'max_meas': 2, 'max_ops': 3, 'max_id': 5}, 7),
              ({'backends': ['sqlmem'], 'max_trials': 2, 'max_meas': 1, 'max_ops': 2, 'max_id': 4}, 5),
@@ -131,8 +140,11 @@ def run(ctx):
     cfg = dict(cfg)
     starts = cfg.pop('starts', None)
     s = statespace.Search(ctx, 'expand', depth, cfg, starts=starts)
+    import time as _time
+    _t0 = _time.time()
     fp = s.run()
     c = s.coverage(fp)
+    c['wall_s'] = round(_time.time() - _t0, 1)
     if c['snapshot_vs_replay_mismatches']:
       from vfw.runner import HarnessError
       raise HarnessError('snapshot/replay mismatch in %s' % cfg)
